@@ -245,6 +245,51 @@ Section Composition.
               exact (cstep_inv nodes adj cfg lab lat nodes_small adj_irrefl adj_sym c c' Hw Hv Hs)].
   Qed.
 
+  (* ---------- hop counts are bounded by the number of routers ---------- *)
+  Definition hops_bounded (c : cnet) : Prop :=
+    forall r e, In e (c_tbl c r) -> e_thops e <= N.of_nat (length nodes).
+
+  Lemma cstep_hops_bounded c c' : wf nodes c -> hops_bounded c -> cstep nodes adj cfg lab lat c c' -> hops_bounded c'.
+  Proof.
+    intros Hwf Hb Hstep.
+    destruct Hstep as [c id o rl ex info Ho Hid news|c pre m post now Hflt Hne Hnp Hd|c pre m post now t' added fw Hflt r Hne Hadm Hd news]; [exact Hb|exact Hb|].
+    destruct (handled_cases nodes adj cfg lab lat nodes_small adj_irrefl c pre m post now t' added fw Hwf Hflt Hne Hd) as (Hm & Ho & Hl & Ha & _).
+    fold r in Ho, Hl, Ha.
+    pose proof (chain_short nodes nodes_small m Hm) as Hshort.
+    destruct Hwf as (_ & Ht & _ & _). destruct (Ht r) as [Hs Hw].
+    intros r0 y Hy. cbn [c_tbl] in Hy. unfold upd in Hy. destruct (N.eqb_spec r0 r) as [->|_]; [|exact (Hb r0 y Hy)].
+    destruct (add_route_sub _ _ _ _ _ _ y Hs Hw Ha Hy) as [Hold|[_ Hty]]; [exact (Hb r y Hold)|].
+    rewrite Hty. rewrite (ann_route_thops nodes adj cfg lab lat nodes_small adj_irrefl adj_sym) by exact Hshort.
+    destruct Hm as (_ & _ & _ & Hnd & Hincl & Hto).
+    assert (Hnd' : NoDup (r :: a_origin (cm_ann m) :: map r_signer (a_chain (cm_ann m)))).
+    { constructor; [|exact Hnd]. intros [E|I]; [apply Ho; exact E|exact (Hl I)]. }
+    assert (Hincl' : incl (r :: a_origin (cm_ann m) :: map r_signer (a_chain (cm_ann m))) nodes).
+    { intros z [<-|Hz]; [exact Hto|exact (Hincl z Hz)]. }
+    pose proof (NoDup_incl_length Hnd' Hincl') as Hlen. cbn [length] in Hlen. rewrite map_length in Hlen. lia.
+  Qed.
+
+  Lemma init_hops_bounded c : init_peers c -> hops_bounded c.
+  Proof.
+    intros Hp r e He. destruct (Hp r e He) as (_ & Ht & _ & Hd). rewrite Ht.
+    apply in_neighbours in Hd. destruct Hd as [Hd _]. destruct nodes as [|x l]; [destruct Hd|]. cbn [length]. lia.
+  Qed.
+
+  Theorem preach_hops_bounded c : preach c -> hops_bounded c.
+  Proof.
+    induction 1 as [c Hi Hp|c c' Hpr IH Hs]; [apply init_hops_bounded; exact Hp|].
+    exact (cstep_hops_bounded c c' (proj1 (preach_inv c Hpr)) IH Hs).
+  Qed.
+
+  Lemma best_bounded c b a : preach c -> (best c b a <= length nodes)%nat.
+  Proof.
+    intros Hp. unfold best. destruct (a =? b); [lia|].
+    destruct (lookup_nearest (c_tbl c a) b) as [[e m]|] eqn:Hl; [|lia].
+    assert (He : In e (c_tbl c a)).
+    { unfold lookup_nearest in Hl. destruct (find_index (c_tbl c a) b) as [[i m']|]; [|discriminate].
+      destruct (nth_error (c_tbl c a) i) as [x|] eqn:Hx; [|discriminate]. inversion Hl; subst. exact (nth_error_In _ _ Hx). }
+    pose proof (preach_hops_bounded c Hp a e He). lia.
+  Qed.
+
   (* In every state the mesh of announcement handlers can reach — quiescent or not — a frame that
      router a originates for a router b every router knows a route to, with a TTL above the hop
      count of a's best route, is handed to b's handlers (and to nobody else's: deliver is a
@@ -278,6 +323,19 @@ Section Composition.
   Proof.
     intros Hp Hq Hconn Hann Hrt Ha Hb Hab. apply gossip_mesh_delivers; try assumption.
     intros r Hr Hne. exact (mesh_reach nodes adj cfg lab lat nodes_small adj_irrefl c b r (preach_creach c Hp) Hq Hconn Hann Hb Hr Hne).
+  Qed.
+  (* meshes of up to 31 routers: the TTL of an originated frame (32) always suffices *)
+  Corollary default_ttl_suffices c b a f flag :
+    (length nodes <= 31)%nat ->
+    preach c -> routable b = true -> In a nodes -> a <> b ->
+    (forall r, In r nodes -> r <> b -> knows (c_tbl c r) b) ->
+    ff_src f = a -> ff_dst f = b -> ff_sb f = [] -> is_hop_ping (ff_ty f) = false ->
+    ff_ttl f = Gen.frame_default_ttl ->
+    exists f', deliver_from_origin (node_of c) (rlink_of c) flag (S (best c b a)) a f = Some (b, f') /\
+               ff_ty f' = ff_ty f /\ ff_src f' = ff_src f /\ ff_dst f' = ff_dst f /\ ff_rest f' = ff_rest f /\ ff_sb f' = [].
+  Proof.
+    intros Hn Hp Hrt Ha Hab Hknows Hsrc Hdst Hsb Hhp Httl. apply gossip_mesh_delivers; try assumption.
+    rewrite Httl. pose proof (best_bounded c b a Hp). change Gen.frame_default_ttl with 32. lia.
   Qed.
 End Composition.
 
